@@ -54,7 +54,8 @@ def gen_case(rng, maxn):
     r = rng.random()
     if r < 0.3:
         d = rng.choice([1, 2, 3, 4, 4, 5])
-        p = {"name": rng.choice(T.NAMES), "dim": d, "map": rng.choice([None, None, rng.choice(T.MAPS)]), "min": [], "max": []}
+        p = {"name": rng.choice(T.NAMES), "dim": d, "map": rng.choice([None, None, rng.choice(T.MAPS)]) if d <= 3 else None,
+             "min": [], "max": []}              # Mapping(name, dim) exists for dim <= 3 only
         set_bounds(rng, p)
         case = {"kind": "single", "single": True, "dim": d, "name": p["name"], "patches": [p], "conns": [], "byobj": False,
                 "geo": {"wellformed": True, "consistent": False}}
@@ -167,6 +168,13 @@ def oracle(case, res):
         return bad
     R = res["reread"]["ok"]
     tf = lambda x: (x[0], x[1], x[2])
+    if T.pair_overwrite(case):
+        # the domain itself is already damaged by the dictionary overwrite of Domain.join (C13): one signature
+        names = [T.phys_name(p) for p in case["patches"]]
+        if T.partition_failures(D, T.expected_faces(names, case["dim"])) and json.dumps(D["boundary"]) != json.dumps(R["boundary"]):
+            bad.append(("reread", {"kind": "roundtrip", "pred": "after-pair-overwrite"},
+                        "a domain whose join overwrote an interface is re-read with other boundary faces"))
+            return bad
     if R["name"] != D["name"] or R["dim"] != D["dim"]:
         bad.append(("reread", {"kind": "roundtrip", "pred": "name-dim"}, "name/dim %s/%s re-read as %s/%s" % (D["name"], D["dim"], R["name"], R["dim"])))
     if case.get("single") and res.get("reread_cls") != res.get("dom_cls"):
